@@ -609,4 +609,43 @@ theorem tiles3 (a b L : Int) (h1 : 0 ≤ a) (h2 : a ≤ b) (h3 : b ≤ L) :
   simp only [tiles, Bool.and_eq_true, decide_eq_true_eq, true_and]
   omega
 
+/-! ### SetFeatures -/
+
+/-- the loop of `SetFeatures`: what a run without location error computes -/
+theorem scanFeats_ok : ∀ (gid : Nat) (fs : List FeatIv) (pos e pos' e' : Int),
+    scanFeats gid fs pos e = .ok (pos', e') →
+    (∀ f ∈ fs, f.loc = gid ∧ pos' ≤ f.start ∧ f.stop ≤ e') ∧ pos' ≤ pos ∧ e ≤ e' ∧
+      (pos' = pos ∨ ∃ f ∈ fs, f.start = pos') ∧ (e' = e ∨ ∃ f ∈ fs, f.stop = e')
+  | _, [], pos, e, pos', e', h => by
+    simp only [scanFeats, Except.ok.injEq, Prod.mk.injEq] at h
+    obtain ⟨rfl, rfl⟩ := h
+    exact ⟨fun _ hf => absurd hf (List.not_mem_nil), Int.le_refl _, Int.le_refl _, Or.inl rfl, Or.inl rfl⟩
+  | gid, f :: fs, pos, e, pos', e', h => by
+    unfold scanFeats at h
+    split at h
+    · cases h
+    · rename_i hloc
+      have hloc : f.loc = gid := by simpa using hloc
+      have ih := scanFeats_ok gid fs _ _ pos' e' h
+      obtain ⟨h1, h2, h3, h4, h5⟩ := ih
+      refine ⟨?_, ?_, ?_, ?_, ?_⟩
+      · intro x hx
+        rcases List.mem_cons.mp hx with rfl | hx
+        · refine ⟨hloc, ?_, ?_⟩
+          · split at h2 <;> omega
+          · split at h3 <;> omega
+        · exact h1 x hx
+      · split at h2 <;> omega
+      · split at h3 <;> omega
+      · rcases h4 with h4 | ⟨x, hx, hxs⟩
+        · split at h4
+          · exact Or.inr ⟨f, List.mem_cons_self .., h4.symm⟩
+          · exact Or.inl h4
+        · exact Or.inr ⟨x, List.mem_cons_of_mem _ hx, hxs⟩
+      · rcases h5 with h5 | ⟨x, hx, hxs⟩
+        · split at h5
+          · exact Or.inr ⟨f, List.mem_cons_self .., h5.symm⟩
+          · exact Or.inl h5
+        · exact Or.inr ⟨x, List.mem_cons_of_mem _ hx, hxs⟩
+
 end Biogo.Proofs.Gene
